@@ -31,6 +31,7 @@ pub struct SvcConfig {
     pub vote_duration: Option<Duration>,
     pub max_nodes_response: Option<usize>,
     pub query_timeout: Option<Duration>,
+    pub query_parallelism: Option<usize>,
     pub ping_interval: Option<Duration>,
     pub local_seq: u64,
     pub register_events: bool,
@@ -59,6 +60,7 @@ impl Default for SvcConfig {
             vote_duration: None,
             max_nodes_response: None,
             query_timeout: None,
+            query_parallelism: None,
             ping_interval: None,
             local_seq: 1,
             register_events: true,
@@ -268,6 +270,9 @@ impl Svc {
         }
         if let Some(m) = cfg.max_nodes_response {
             cb.max_nodes_response(m);
+        }
+        if let Some(p) = cfg.query_parallelism {
+            cb.query_parallelism(p);
         }
         if let Some(q) = cfg.query_timeout {
             cb.query_timeout(q);
